@@ -4,7 +4,11 @@ from .core import Rng
 from . import gen_events as G
 from .buildref import check_history_line
 
-BACKENDS = ["d", "u", "r", "m", "t", "h", "a"]
+# interner backends, then the other ways of making a builder: o / i / q = the cache is MOVED into every builder
+# (GreenNodeBuilder::from_cache) over NodeCache::new() / NodeCache::from_interner(..) / NodeCache::with_interner(user interner)
+BACKENDS = ["d", "u", "r", "m", "t", "h", "a", "o", "i", "q"]
+# builders that own their cache (single trees): GreenNodeBuilder::new / with_interner / from_interner
+OWNING = ["z", "w", "j"]
 
 
 class C01(Property):
@@ -45,6 +49,9 @@ class C01(Property):
         for ops in G.enum_balanced(maxlen):
             for m in (["f", "0", "3"] if len(ops) <= (7 if tier == "quick" else 8) else ["0"]):
                 res.append(("exhaustive", "H d %s %s" % (m, " ".join(ops))))
+            if len(ops) <= 6:
+                for route in OWNING + ["o", "i", "q"]:
+                    res.append(("exhaustive", "H %s f %s" % (route, " ".join(ops))))
         rng = Rng(seed)
         nrand = 1500 if tier == "quick" else 30000
         for i in range(nrand):
